@@ -453,7 +453,7 @@ def job_tail_program(item):
 
 def main():
     run = Run("C11", "other")
-    Ks = [3, 4] if run.quick else [3, 4, 5]
+    Ks = [3, 4, 5]
     work = [(job_conversions, None, "conversions"), (job_handlers, None, "handlers"), (job_comb, None, "comb"), (job_goal_syntax, None, "goal-syntax")]
     work += [(job_expansions, K, f"expansions(K={K})") for K in Ks]
     work += [(job_tail_program, (n, v, th, 4 if run.quick else 6), f"tail/{n}") for n, v, th in TAIL_PROGRAMS]
